@@ -22,7 +22,8 @@ def nontrivial(e):
 
 def key_of(e):
     if e["ev"] == "KFold":
-        return "kfold n=%d k=%d shuffle=%s built=%s" % (e["n"], e["k"], e["shuffle"], ["n_splits,shuffle", "shuffle,n_splits", "literal"][e.get("how", 0)])
+        return "kfold n=%d k=%d shuffle=%s built=%s consumed=%s" % (e["n"], e["k"], e["shuffle"], ["n_splits,shuffle", "shuffle,n_splits", "literal"][e.get("how", 0)],
+                                                                  ["collect", "take+skip", "nth", "next+collect", "step_by"][e.get("via", 0)])
     if e["ev"] == "TTS":
         return "tts n=%d ny=%d ts=%d*2^%d shuffle=%s" % (e["n"], e["ny"], e["tsM"], e["tsE"], e["shuffle"])
     return "cv run"
@@ -49,7 +50,7 @@ def run(ctx):
         events += vlib.read_ndjson(f)
     vlib.write_ndjson(allf, events)
     v, bads = ctx.tlc_trace("modelsel/ModelSelTrace.tla", "modelsel/ModelSelTrace.cfg", allf,
-                            must_hit=("KFold", "KFoldShuffled", "KFoldPanic", "TTS", "TTSPanic", "Fit", "Predict", "Score", "CVDone"))
+                            must_hit=("KFold", "KFoldVia", "KFoldShuffled", "KFoldPanic", "TTS", "TTSPanic", "CVStartCustom", "Fit", "Predict", "Score", "CVDone"))
     if v.get("live"):
         raise vlib.ToolError("trace ended inside a cross-validation run")
     ctx.evaluations = len(events)
@@ -62,7 +63,7 @@ def run(ctx):
         else:
             runev = [x for x in events if x.get("run") == runid and x["ev"] not in ("KFold", "TTS")]
             start = runev[0]
-            ctx.report("cv kind=%s n=%d k=%d shuffle=%s built=%s at %s" % (start["kind"], start["n"], start["k"], start["shuffle"], ["n_splits,shuffle", "shuffle,n_splits", "literal"][start.get("how", 0)], ev),
+            ctx.report("cv kind=%s n=%d k=%d shuffle=%s built=%s splitter=%s at %s" % (start["kind"], start["n"], start["k"], start["shuffle"], ["n_splits,shuffle", "shuffle,n_splits", "literal"][start.get("how", 0)], "custom" if start.get("custom") else "KFold", ev),
                        "%s fails at event %d of a cross-validation run" % (clause, l), runev)
     nt = set()
     for e in events:
